@@ -113,7 +113,7 @@ Lemma enc_blocks_ok dt a g c H cs : forall st,
               e_len st' <= e_len st + lenN cs * ((wpe dt + 1) * blk_elems g).
 Proof.
   induction cs as [|[[zb yb] xb] r IH]; intros st Hwf Hbx Hby Hbz Hin Hinv Hb.
-  - exists st. split; [reflexivity|]. rewrite lenN_nil. lia.
+  - exists st. split; [reflexivity|]. unfold lenN. cbn [length]. lia.
   - rewrite lenN_cons in Hb. cbn [enc_blocks].
     destruct (Hin zb yb xb ltac:(now left)) as (Hz & Hy & Hx).
     destruct (block_vals_ok a g c zb yb xb Hbx Hby Hbz Hz Hy Hx) as (v & Ev & Hlv).
